@@ -12,6 +12,7 @@ package varmq
 // every other goroutine has parked, blocked or ended.
 
 import (
+	"sort"
 	"bytes"
 	"fmt"
 	"regexp"
@@ -393,6 +394,36 @@ func (g *gate) allBlocked() (bool, []string) {
 		}
 	}
 	return ok, blockedClients
+}
+
+// noteAt records an event under a sequence number reserved earlier (adapter calls reserve it inside their
+// critical section, so that the log order of adapter events is the order in which they took effect).
+func (g *gate) noteAt(seq int64, label string, kv ...any) {
+	if !g.active.Load() {
+		return
+	}
+	id := goid()
+	g.mu.Lock()
+	p := g.procs[id]
+	name := "?"
+	if p != nil {
+		name = p.name
+	}
+	e := event{"p": name, "ev": label, "seq": seq}
+	for i := 0; i+1 < len(kv); i += 2 {
+		e[kv[i].(string)] = kv[i+1]
+	}
+	g.log = append(g.log, e)
+	g.mu.Unlock()
+}
+
+// sortedLog returns the events ordered by their sequence numbers
+func (g *gate) sortedLog() []event {
+	g.mu.Lock()
+	defer g.mu.Unlock()
+	out := append([]event(nil), g.log...)
+	sort.SliceStable(out, func(i, j int) bool { return out[i]["seq"].(int64) < out[j]["seq"].(int64) })
+	return out
 }
 
 // shutdown releases everything and turns the gate off (goroutines run free from here on).
